@@ -29,11 +29,12 @@ def run(pid, replay=None):
         # directed behaviours: the schedules that break a property when one of the repairs is missing, from the
         # current model (so they follow every refinement of it), a few per disabled repair, shortest first
         directed = []
-        for k in range(1, 6):
+        for k in range(1, 7):
             sink = []
-            r = vlib.run_tlc(pid, "off%d" % k, SPEC, "Pool", "MC_off%d.cfg" % k, timeout=1800, line_sink=sink.append)
+            cfgk = "MC_off%d.cfg" % k if k < 6 else "MC_try.cfg"   # 6: attempted entries while release holds c.mu
+            r = vlib.run_tlc(pid, "off%d" % k, SPEC, "Pool", cfgk, timeout=1800, line_sink=sink.append)
             if r.timeout or not sink:
-                raise vlib.Infra("Pool MC_off%d.cfg printed no schedule: %s" % (k, r.raw[-600:]))
+                raise vlib.Infra("Pool %s printed no schedule: %s" % (cfgk, r.raw[-600:]))
             pick = sink[:4] + [sink[int(j * len(sink) / 5.0)] for j in range(1, 5)]
             directed += [{"hist": d["hist"], "max": d["max"], "violates": d["violates"], "fixoff": k} for d in pick]
         n = 3000 if thorough else 200
